@@ -124,6 +124,28 @@ ADDED = {
 for k, v in ADDED.items():
     CLAIMS[k]["text"] += v
 
+
+ADDED2 = {
+ "C02": " Wave 3: R-LIVEOPS (opcodes that read capture state are kept alive), R-QUICKSAME (the quick Code differs only in its instruction stream), R-FFFDFILTER (byte-searching filters refuse U+FFFD literals), R-STEPDECODE.",
+ "C03": " Wave 3: R-FWDONLY (26 stores to Runtextpos in the left-to-right finders are derived >= the incoming position), R-BUMPWALK covers lazy loops inside Atomic.",
+ "C04": " Wave 3: R-BYTERUNE, R-RUNECUT (UTF-8 prefixes are not treated as bytes), R-MAXASMIN.",
+ "C05": " Wave 3: R-ATOMREP (folding of repeated atomic loops depends on the bounds).",
+ "C07": " Wave 3: R-FWDONLY, R-SENTINELARG (-1 'unspecified' parameters are not tested with <= 0), R-UNITCMP (byte offsets are not compared with rune indexes).",
+ "C08": " Wave 3: R-UNITCMP, R-RUNELENNEG, R-STEPDECODE, R-RUNEWIDTH generalised.",
+ "C09": " Wave 3: R-REPID (nothing replaced => input returned), R-COMMITPOS ($nn commits number and position together).",
+ "C10": " Wave 3: R-MAKEARG (no allocation sized by a caller's count), R-LIM5, R-RUNEWIDTH.",
+ "C12": " Wave 3: R-QUICKSAME, R-SELFRUN (Regexp methods search with their own receiver).",
+ "C13": " Wave 3: R-LIM5 (ensureStorage re-tests the reserve after growTrack).",
+ "C14": " Wave 3: R-SELFRUN.",
+ "C15": " Wave 3: R-ANCHORSIB (each anchor tested alone in both direction arms), R-BMDIR (Boyer-Moore tables are walked in the search direction).",
+ "C16": " Wave 3: R-COPYALL (Copy carries every field), R-UNIONRET (category membership is a union), R-WORDSIB (\\b predicate and \\w class agree per mode), R-OR20, R-KEYINJ for the string table.",
+ "C18": " Wave 3: R-OPTCACHE (option predicates are not cached across a loop).",
+ "C19": " Wave 3: R-RUNEBYTE, R-ERRFALLBACK, R-KEYINJ.",
+ "C20": " Wave 3: R-LETTERRANGE (interval abstraction of letter/digit range tests), R-OR20, R-CATIDENT, R-CIFLAG, R-COPYALL.",
+}
+for k, v in ADDED2.items():
+    CLAIMS[k]["text"] += v
+
 NOT_APPLICABLE = {
  "C06": "Equality between two engines over all common-syntax patterns x inputs x n: truth lives in matching semantics, not in the shape of the adapter; no structural necessary-and-telling condition exists (DESIGN.md §7).",
 }
